@@ -205,6 +205,39 @@ pub fn sheet_projection(d: &Decoded, s: &DSheet) -> BTreeMap<String, String> {
             json!({"kind": kind, "value": if empty_value { Value::Null } else { value }, "formula": formula.map(|f| f.trim().to_string()), "runs": runs, "style": style}).to_string(),
         );
     }
+    // column settings: <col min max> spans are split / merged freely by writers, so they are
+    // brought into canonical maximal intervals first
+    let mut ivals: Vec<(u32, u32, String)> = Vec::new();
+    for c in &s.cols {
+        let (Some(mn), Some(mx)) = (c.min, c.max) else { continue };
+        let st = c.style.and_then(|i| styles.get(i as usize).cloned()).unwrap_or(default_style.clone());
+        // widths are left to the library-side dump (C05): writers add default-width entries
+        // for touched columns, which an independent decoder cannot tell from "no entry"
+        if !c.hidden && st == default_style {
+            continue;
+        }
+        let props = json!({"hidden": c.hidden, "style": if st == default_style { Value::Null } else { st }}).to_string();
+        ivals.push((mn, mx, props));
+    }
+    ivals.sort();
+    let mut merged_cols: Vec<(u32, u32, String)> = Vec::new();
+    for (mn, mx, p) in ivals {
+        match merged_cols.last_mut() {
+            Some(last) if last.2 == p && last.1 + 1 >= mn => last.1 = last.1.max(mx),
+            _ => merged_cols.push((mn, mx, p)),
+        }
+    }
+    for (mn, mx, p) in merged_cols {
+        m.insert(format!("col/{:05}-{:05}", mn, mx), p);
+    }
+    for r in &s.rows {
+        let st = r.s.and_then(|i| styles.get(i as usize).cloned()).unwrap_or(default_style.clone());
+        let ht = if r.custom_height || r.ht.is_some() { num(&r.ht) } else { Value::Null };
+        if ht.is_null() && !r.hidden && st == default_style {
+            continue;
+        }
+        m.insert(format!("row/{:07}", r.r), json!({"ht": ht, "hidden": r.hidden, "style": if st == default_style { Value::Null } else { st }}).to_string());
+    }
     for r in &s.merged {
         if let Some(r) = r {
             m.insert(format!("merge/{}", r), "1".into());
